@@ -4,7 +4,8 @@ from lib.semcheck import impl, model_expr, oracle, describe, shrink, IMPORTS
 
 ID = 'C06'
 THEOREMS = ['C06_control_code_correct', 'C06_control_correct_flags', 'C06_compile_body_total', 'C06_compiled_program_computes_reference', 'C06_or_spec', 'C06_ite_spec', 'C06_if_no_else_spec', 'C06_not_spec', 'C06_neg_binds_nothing', 'C06_and_spec', 'C06_opaque_cut_refuted']
-CASE_TIMEOUT = 20
+CASE_TIMEOUT = 60
+MODEL_NEEDS_IMPL = True
 COQ_CHUNK = 20
 RULE = ('random programs whose bodies nest ;, ->, -> without else and \\+ to depth 4 around calls with 0-3 solutions, =, \\=, true, fail and '
         'cuts in branches, followed by continuation goals; 10% of the programs also put a cut inside a condition or under \\+ (the recorded '
